@@ -42,6 +42,11 @@ type Exec struct {
 	loopInfo map[*ssa.BasicBlock]*loopInfo
 	usedContracts map[string]bool
 	inPanicHandler bool
+	inPanicExit bool
+	pendingPanicVal *Val
+	inheritedMeasure bool
+	assignsEnv *Env
+	measureSt *State
 	specMode int
 	recoverVal *Val
 	havocAllUsed bool
@@ -88,6 +93,12 @@ func (ex *Exec) oblige(kind, pc, goal string, pos token.Pos, detail string) {
 		case "nil", "bounds", "slice", "assert-type", "div0", "neg-make", "nil-map-write":
 			ex.em.assume(pc, goal)
 			ex.em.Assumed["safety obligations switched off in "+r.key] = true
+			return
+		}
+	}
+	switch kind {
+	case "nil", "bounds", "slice", "assert-type", "div0", "neg-make", "nil-map-write":
+		if ex.handlePanic(pc, goal, nil) {
 			return
 		}
 	}
